@@ -112,7 +112,9 @@ def run_check(prop, tier, seed):
     target = prop.PROPERTY_FILE[:-2] + '.vo'
     cone = []
     if not any(b[0] == 'translator' for b in broken):
-        ok, out, secs = coqrun.make([target])
+        # the generated case files import model files that need not be in the property's cone
+        models = [f[:-2] + '.vo' for f in coqrun.project_files() if f.startswith(('Model/', 'Generated/'))]
+        ok, out, secs = coqrun.make([target] + models)
         ev['build_s'] = round(secs, 1)
         cone = coqrun.dependency_cone(prop.PROPERTY_FILE)
         obligations = coqrun.count_statements(cone)
